@@ -1,35 +1,64 @@
-"""Apply each seeded change to /repo, run the named checks (quick tier, no self-test), undo.
-usage: run_seeded.py [--checks C07,C09] [ids...]   -> prints a detection matrix line per mutant."""
-import json, os, subprocess, sys
+"""Run the checks against seeded changes WITHOUT touching /repo: each change is applied in its own scratch git worktree
+of /repo (at /repo's HEAD), the checks import the generator from there (PYTHONPATH), the worktree is removed afterwards.
+
+usage: run_seeded.py [--checks C07,C09] [--jobs N] [ids...]   -> one detection-matrix line per seeded change
+"""
+import json
+import os
+import subprocess
+import sys
+from concurrent.futures import ThreadPoolExecutor
+
 VERIF = os.path.dirname(os.path.dirname(os.path.abspath(__file__)))
+WT_ROOT = "/tmp/wt"
+
+
 def sh(cmd, **kw):
     return subprocess.run(cmd, shell=True, capture_output=True, text=True, **kw)
+
+
+def one(sid, checks, built):
+    meta = json.load(open(os.path.join(VERIF, "seeded", sid, "meta.json")))
+    todo = checks or [meta["property"]] + meta.get("also_checked_by", [])
+    todo = [c for c in todo if c in built]
+    patch = os.path.join(VERIF, "seeded", sid, "patch.diff")
+    wt = os.path.join(WT_ROOT, f"rs-{sid}-{os.getpid()}")
+    os.makedirs(WT_ROOT, exist_ok=True)
+    r = sh(f"git -C /repo worktree add -q --detach {wt} HEAD")
+    if r.returncode != 0:
+        return f"{sid}: cannot create worktree: {r.stderr.strip()[:200]}"
+    try:
+        r = sh(f"git -C {wt} apply {patch}")
+        if r.returncode != 0:
+            r = sh(f"git -C {wt} apply -3 {patch}")
+            unmerged = sh(f"git -C {wt} diff --name-only --diff-filter=U").stdout.strip()
+            if r.returncode != 0 or unmerged:
+                return f"{sid} ({meta['property']}): PATCH DOES NOT APPLY at /repo HEAD ({(r.stderr.strip() or unmerged)[:160]})"
+        env = dict(os.environ, PYTHONPATH=wt)
+        res = {}
+        for c in todo:
+            p = sh(f"timeout 1500 /venv/bin/python check.py {c} --tier quick --no-selftest --no-evidence", cwd=VERIF, env=env)
+            lines = [l for l in p.stdout.splitlines() if l.startswith(("VIOLATION", "  rule=", "HARNESS"))]
+            res[c] = (p.returncode, " | ".join(lines)[:400])
+        return f"{sid} ({meta['property']}): " + "; ".join(f"{c}: exit={rc} {txt}" for c, (rc, txt) in res.items())
+    finally:
+        sh(f"git -C /repo worktree remove --force {wt}")
+
+
 def main():
     args = sys.argv[1:]
-    checks = None
-    if args and args[0] == "--checks":
-        checks = args[1].split(","); args = args[2:]
+    checks, jobs = None, 1
+    while args and args[0].startswith("--"):
+        if args[0] == "--checks":
+            checks = args[1].split(",")
+        elif args[0] == "--jobs":
+            jobs = int(args[1])
+        args = args[2:]
     ids = args or sorted(os.listdir(os.path.join(VERIF, "seeded")))
     built = json.load(open(os.path.join(VERIF, "tools", "built.json")))
-    assert sh("git -C /repo status --porcelain").stdout.strip() == "", "/repo not clean"
-    for sid in ids:
-        meta = json.load(open(os.path.join(VERIF, "seeded", sid, "meta.json")))
-        todo = checks or [meta["property"]] + meta.get("also_checked_by", [])
-        todo = [c for c in todo if c in built]
-        patch = os.path.join(VERIF, "seeded", sid, "patch.diff")
-        r = sh(f"git -C /repo apply {patch}")
-        if r.returncode != 0:
-            r = sh(f"git -C /repo apply -3 {patch}")
-        if r.returncode != 0:
-            print(f"{sid}: PATCH DOES NOT APPLY: {r.stderr.strip()[:200]}"); sh("git -C /repo checkout -- ."); continue
-        try:
-            res = {}
-            for c in todo:
-                p = sh(f"timeout 900 /venv/bin/python check.py {c} --tier quick --no-selftest --no-evidence", cwd=VERIF)
-                lines = [l for l in p.stdout.splitlines() if l.startswith(("VIOLATION", "  rule=", "HARNESS", "KNOWN"))]
-                res[c] = (p.returncode, " | ".join(lines)[:400])
-            print(f"{sid} ({meta['property']}): " + "; ".join(f"{c}: exit={rc} {txt}" for c, (rc, txt) in res.items()), flush=True)
-        finally:
-            sh("git -C /repo checkout -- .")
-            sh("git -C /repo clean -fdq gapic")
+    with ThreadPoolExecutor(jobs) as ex:
+        for line in ex.map(lambda s: one(s, checks, built), ids):
+            print(line, flush=True)
+
+
 main()
